@@ -58,6 +58,17 @@ pub fn programs(tier: Tier) -> ProgramSet {
             let source = render(&spec);
             out.push(Program { idx: 0, label: format!("{} [error function with an inferred return type]", e.label), k: e.k + 1, spec, aux: json!(null), source });
         }
+        // the error function is generic over its argument (an associated function taking `impl Into<String>`, a free function
+        // taking `S: AsRef<str>`)
+        if e.k <= 1 {
+            for f in ["vf_core::MyErr::new_any", "vf_core::my_err_any"] {
+                let mut spec = e.spec.clone();
+                spec.parse_err = false;
+                spec.extra_attrs.push(format!("#[strum(parse_err_ty = vf_core::MyErr, parse_err_fn = {})]", f));
+                let source = render(&spec);
+                out.push(Program { idx: 0, label: format!("{} [error function generic over its argument: {}]", e.label, f), k: e.k + 1, spec, aux: json!(null), source });
+            }
+        }
         // a default variant next to the custom error: every input is accepted, the function must never run
         if e.k <= 1 && e.spec.generics.is_empty() {
             for first in [false, true] {
@@ -137,7 +148,7 @@ pub fn render(spec: &EnumSpec) -> String {
     // the instantiation of the first type parameter (u8, or vf_core::Nd for a parameter named P, ..)
     let first_ty_arg = spec.generics_inst().trim_start_matches('<').trim_end_matches('>').split(", ").find(|a| !a.starts_with('\'')).unwrap_or("u8").to_string();
     let err_g = format!("vf_core::MyErrG<{}>", first_ty_arg);
-    let inferred = spec.extra_attrs.iter().any(|a| a.contains("my_err_generic"));
+    let inferred = spec.extra_attrs.iter().any(|a| a.contains("my_err_generic") || a.contains("new_any") || a.contains("my_err_any"));
     let err_ty = if generic_err { err_g.as_str() } else if spec.parse_err || inferred { "vf_core::MyErr" } else { "strum::ParseError" };
     if spec.variants.iter().any(|v| v.default && !v.disabled) {
         // with a default variant no input is rejected; which error type the impl names is not observable through a result and is
@@ -153,7 +164,7 @@ pub fn render(spec: &EnumSpec) -> String {
 
 pub fn explore(ctx: &mut Ctx, from_str: &mut dyn FnMut(&str) -> Obs, try_from: &mut dyn FnMut(&str) -> Obs) {
     let spec = ctx.spec().clone();
-    let custom = spec.parse_err || spec.extra_attrs.iter().any(|a| a.contains("MyErrG") || a.contains("my_err_generic"));
+    let custom = spec.parse_err || spec.extra_attrs.iter().any(|a| a.contains("MyErrG") || a.contains("my_err_generic") || a.contains("new_any") || a.contains("my_err_any"));
     let inp = family_inputs(ctx);
     // counter discipline, checked around every single call
     let mut f1 = |s: &str| -> Obs {
